@@ -1003,6 +1003,10 @@ class Machine:
         return self.index(base, idx)
 
     def index(self, base, idx):
+        if isinstance(base, dict):
+            if idx in base:
+                return base[idx]
+            raise PyRaise("KeyError")
         if isinstance(base, tuple):
             if isinstance(idx, int):
                 try:
@@ -1111,7 +1115,11 @@ class Machine:
         kwargs = {}
         for kw in node.keywords:
             if kw.arg is None:
-                raise Unsupported("**kwargs in a call")
+                d = self.eval(kw.value)
+                if not isinstance(d, dict):
+                    raise Unsupported("**kwargs of a non-dict")
+                kwargs.update(d)
+                continue
             kwargs[kw.arg] = self.eval(kw.value)
         return self.call(f, args, kwargs)
 
